@@ -61,6 +61,8 @@ def to_cst(e):
         n = cst.IfExp(test=to_cst(e["c"]), body=to_cst(e["t"]), orelse=to_cst(e["f"]))
     elif k == "named":
         n = cst.NamedExpr(target=cst.Name(e["n"]), value=to_cst(e["v"]))
+    elif k == "tup":
+        n = cst.Tuple(elements=[cst.Element(to_cst(e["a"])), cst.Element(to_cst(e["b"]))], lpar=[], rpar=[])
     else:
         raise ValueError(k)
     return _par(n, e["p"])
@@ -104,26 +106,31 @@ def from_cst(n):
     if isinstance(n, cst.IfExp):
         t, c, f = from_cst(n.body), from_cst(n.test), from_cst(n.orelse)
         return None if None in (t, c, f) else {"k": "ifx", "t": t, "c": c, "f": f, "p": p}
+    if isinstance(n, cst.Tuple) and len(n.elements) == 2 and all(isinstance(el, cst.Element) for el in n.elements):
+        a, b = from_cst(n.elements[0].value), from_cst(n.elements[1].value)
+        return None if a is None or b is None else {"k": "tup", "a": a, "b": b, "p": p}
     if isinstance(n, cst.NamedExpr) and isinstance(n.target, cst.Name):
         v = from_cst(n.value)
         return None if v is None else {"k": "named", "n": n.target.value, "v": v, "p": p}
     return None
 
 
-def reparse(e):
-    """the tree libcst's parser gives for the code libcst's generator prints for `e`, in an `if` test; None = does not parse"""
+def reparse(e, context="if"):
+    """the tree libcst's parser gives for the code libcst's generator prints for `e`, as the test of an `if` or as the right-hand
+    side of an assignment; None = does not parse"""
     code = code_of(to_cst(e))
     try:
-        mod = cst.parse_module(f"if {code}:\n    pass\n")
+        mod = cst.parse_module(f"if {code}:\n    pass\n" if context == "if" else f"val = {code}\n")
         compile(mod.code, "x", "exec")
     except Exception:
         return None, code
-    return from_cst(mod.body[0].test), code
+    return from_cst(mod.body[0].test if context == "if" else mod.body[0].body[0].value), code
 
 
 # ------------------------------------------------------------------ generators
 
-LEVEL = {"named": 0, "ifx": 1, "or": 2, "and": 3, "lnot": 4, "cmp": 5, "chain": 5, "arith": 6, "neg": 7, "atom": 9, "call": 9}
+LEVEL = {"tup": 0, "named": 1, "ifx": 2, "or": 3, "and": 4, "lnot": 5, "cmp": 6, "chain": 6, "arith": 7, "neg": 8, "atom": 10, "call": 10}
+IF_SLOT, EXPR_SLOT = 1, 2      # the test of an `if` takes a bare `:=`; most other places take an expression
 
 
 def kind(e):
@@ -131,14 +138,16 @@ def kind(e):
 
 
 def level(e):
-    return 9 if e["p"] else LEVEL[kind(e)]
+    return 10 if e["p"] else LEVEL[kind(e)]
 
 
 def children(e):
     """[(slot level, key)]"""
     k = kind(e)
-    return {"atom": [], "call": [], "neg": [(7, "e")], "lnot": [(4, "e")], "arith": [(6, "l"), (7, "r")], "and": [(3, "l"), (4, "r")], "or": [(2, "l"), (3, "r")],
-            "cmp": [(6, "l"), (6, "r")], "chain": [(6, "l"), (6, "m"), (6, "r")], "ifx": [(2, "t"), (2, "c"), (1, "f")], "named": [(1, "v")]}[k]
+    el = 1 if e["p"] else 2
+    return {"atom": [], "call": [], "neg": [(8, "e")], "lnot": [(5, "e")], "arith": [(7, "l"), (8, "r")], "and": [(4, "l"), (5, "r")], "or": [(3, "l"), (4, "r")],
+            "cmp": [(7, "l"), (7, "r")], "chain": [(7, "l"), (7, "m"), (7, "r")], "ifx": [(3, "t"), (3, "c"), (2, "f")], "named": [(2, "v")],
+            "tup": [(el, "a"), (el, "b")]}[k]
 
 
 def gen(rng, depth, calls=0.3, kinds=None):
@@ -147,7 +156,7 @@ def gen(rng, depth, calls=0.3, kinds=None):
         if rng.random() < calls:
             return {"k": "call", "r": rng.choice(RECV), "ps": rng.sample(PATS, rng.choice([1, 1, 2])), "p": rng.random() < 0.15}
         return {"k": "atom", "n": rng.choice(ATOMS), "p": rng.random() < 0.15}
-    k = rng.choice(kinds or ["neg", "lnot", "lnot", "arith", "and", "or", "or", "or", "cmp", "cmp", "chain", "ifx", "named"])
+    k = rng.choice(kinds or ["neg", "lnot", "lnot", "arith", "and", "or", "or", "or", "cmp", "cmp", "chain", "ifx", "named", "tup"])
     p = rng.random() < 0.3
     sub = lambda: gen(rng, depth - 1, calls, kinds)
     if k in ("neg", "lnot"): return {"k": k, "e": sub(), "p": p}
@@ -155,6 +164,7 @@ def gen(rng, depth, calls=0.3, kinds=None):
     if k == "cmp": return {"k": "cmp", "op": rng.choice(list(COPS)), "l": sub(), "r": sub(), "p": p}
     if k == "chain": return {"k": "chain", "l": sub(), "o1": rng.choice(list(COPS)), "m": sub(), "o2": rng.choice(list(COPS)), "r": sub(), "p": p}
     if k == "ifx": return {"k": "ifx", "t": sub(), "c": sub(), "f": sub(), "p": p}
+    if k == "tup": return {"k": "tup", "a": sub(), "b": sub(), "p": p}
     return {"k": "named", "n": rng.choice(["w", "v"]), "v": sub(), "p": p}
 
 
@@ -216,17 +226,17 @@ def gen_invert(rng):
     return repair(wrap_context(rng, core, rng.choice([0, 1, 1, 2])))
 
 
-def repair(e, slot=0):
+def repair(e, slot=IF_SLOT):
     """add the parentheses that are needed (and keep the ones that are there)"""
     e = dict(e)
-    for m, key in children(e):
-        e[key] = repair(e[key], m)
     if level(e) < slot:
         e["p"] = True
+    for m, key in children(e):
+        e[key] = repair(e[key], m)
     return e
 
 
-def break_one(rng, e, slot=0):
+def break_one(rng, e, slot=IF_SLOT):
     """drop one pair of parentheses that is needed (None when there is none)"""
     spots = []
 
@@ -259,6 +269,8 @@ def small_trees():
             for y in leaves[1:]:
                 d1 += [{"k": "bin", "op": op, "l": x, "r": y, "p": p} for op in ("arith", "and", "or")] + [{"k": "cmp", "op": "eq", "l": x, "r": y, "p": p}]
         d1.append({"k": "ifx", "t": leaves[0], "c": leaves[2], "f": leaves[0], "p": p})
+        d1.append({"k": "tup", "a": leaves[0], "b": leaves[2], "p": p})
+        d1.append({"k": "tup", "a": {"k": "named", "n": "w", "v": leaves[0], "p": False}, "b": leaves[0], "p": p})
     out = list(d1)
     for x in d1:
         out += [{"k": "neg", "e": x, "p": False}, {"k": "lnot", "e": x, "p": False}, {"k": "named", "n": "w", "v": x, "p": False},
@@ -267,7 +279,8 @@ def small_trees():
                 {"k": "bin", "op": "or", "l": x, "r": leaves[2], "p": False}, {"k": "bin", "op": "or", "l": leaves[2], "r": x, "p": False},
                 {"k": "cmp", "op": "is_", "l": x, "r": leaves[0], "p": False}, {"k": "cmp", "op": "lt", "l": leaves[0], "r": x, "p": False},
                 {"k": "ifx", "t": x, "c": leaves[0], "f": leaves[0], "p": False}, {"k": "ifx", "t": leaves[0], "c": x, "f": leaves[0], "p": False},
-                {"k": "ifx", "t": leaves[0], "c": leaves[0], "f": x, "p": False}]
+                {"k": "ifx", "t": leaves[0], "c": leaves[0], "f": x, "p": False},
+                {"k": "tup", "a": x, "b": leaves[0], "p": False}, {"k": "tup", "a": leaves[0], "b": x, "p": True}]
     return out
 
 
